@@ -21,6 +21,8 @@ pub struct Case {
     pub lines: Vec<GLine>,
     pub rchunks: Vec<i64>,
     pub wplan: Vec<i64>,
+    #[serde(default)]
+    pub rdelays_ms: Vec<i64>,
     pub pager: bool,
     pub hash_seed: u64,
 }
@@ -40,10 +42,12 @@ pub fn gen_case(seed: u64, idx: usize) -> Case {
     if wplan.iter().all(|c| *c == 0) {
         wplan.push(-1);
     }
-    Case { opts, lines, rchunks, wplan, pager: rng.chance(1, 2), hash_seed: rng.below(1_000_000) }
+    let nd = rng.range(1, 5);
+    let rdelays_ms: Vec<i64> = (0..nd).map(|_| *rng.pick(&[0i64, 0, 1, 450, 2_000, 60_000])).collect();
+    Case { opts, lines, rchunks, wplan, rdelays_ms, pager: rng.chance(1, 2), hash_seed: rng.below(1_000_000) }
 }
 
-fn spec_for(case: &Case, rchunks: Vec<i64>, wplan: Vec<i64>) -> RunSpec {
+fn spec_for(case: &Case, rchunks: Vec<i64>, wplan: Vec<i64>, rdelays: Vec<i64>) -> RunSpec {
     let mut spec = RunSpec::default();
     spec.args = case.opts.args.clone();
     spec.args.insert(0, if case.pager { "always".into() } else { "never".into() });
@@ -52,6 +56,7 @@ fn spec_for(case: &Case, rchunks: Vec<i64>, wplan: Vec<i64>) -> RunSpec {
     spec.plan = Plan::basic(case.hash_seed);
     spec.plan.rchunks = rchunks;
     spec.plan.wplan = wplan;
+    spec.plan.rdelays_ms = rdelays;
     spec.pager = Some(PagerSetup { names: vec!["less".into()], mode: "gate".into(), exit_code: 0, less_version: "less 581".into() });
     spec
 }
@@ -83,7 +88,7 @@ pub fn check_case(env: &Env, ctx: &Ctx, case: &Case) -> (Vec<Violation>, LagStat
     let dir = ctx.dir.join("run");
     let mode = if case.pager { "pager" } else { "stdout" };
     // reference: unconstrained delivery, no faults
-    let base = match run(env, &spec_for(case, vec![], vec![]), &dir, false) {
+    let base = match run(env, &spec_for(case, vec![], vec![], vec![]), &dir, false) {
         Ok(r) => r,
         Err(_) => return (out, stats, runs, fired),
     };
@@ -95,8 +100,8 @@ pub fn check_case(env: &Env, ctx: &Ctx, case: &Case) -> (Vec<Violation>, LagStat
     let ref_out = output_of(case, &base);
     let t = lag::truth(&case.lines, &ref_out);
     let line_chunks: Vec<i64> = case.lines.iter().map(|l| (l.text.len() + 1) as i64).collect();
-    for (name, rc, wp) in [("one line per read", line_chunks, vec![]), ("sampled schedule", case.rchunks.clone(), case.wplan.clone())] {
-        let r = match run(env, &spec_for(case, rc, wp), &dir, false) {
+    for (name, rc, wp, dl) in [("one line per read", line_chunks, vec![], vec![]), ("sampled schedule with producer pauses", case.rchunks.clone(), case.wplan.clone(), case.rdelays_ms.clone())] {
+        let r = match run(env, &spec_for(case, rc, wp, dl), &dir, false) {
             Ok(r) => r,
             Err(_) => continue,
         };
@@ -108,6 +113,9 @@ pub fn check_case(env: &Env, ctx: &Ctx, case: &Case) -> (Vec<Violation>, LagStat
                 Some("short") => *fired.entry("fault_fired.short_write".into()).or_default() += 1,
                 Some("chunk") => *fired.entry("fault_fired.read_chunked".into()).or_default() += 1,
                 _ => {}
+            }
+            if e.kind == "CLOCK" {
+                *fired.entry("fault_fired.producer_pause_clock_advance".into()).or_default() += 1;
             }
         }
         if r.timed_out || r.exit_code != Some(0) {
